@@ -18,6 +18,9 @@ inductive Op where
   | newRaw (p : Nat)
   /-- `del` / `del_root` -/
   | del (p : Nat)
+  /-- `del_raw` of an object the collector does not know: `dealloc(destruct(p))` without GC_Rem (what the destructor of `p`
+      deletes does go through GC_Rem) -/
+  | delRaw (p : Nat)
   /-- a collection whose mark phase reaches the addresses in `marks` (GC_Mark_Item on each, then GC_Sweep) -/
   | sweep (marks : List Nat)
   | stop
@@ -28,6 +31,7 @@ def step (c : Cfg) (r : Reg) : Op → Option Reg
   | .new p root marks => (gcSet c noK r p root marks).map (fun x => x.1)
   | .newRaw _ => some r
   | .del p => (gcRem c noK r p).map (fun x => x.1)
+  | .delRaw p => (exec c noK (nestFuel r + 1) r (.fin p)).map (fun x => x.1)
   | .sweep marks =>
     match markAll c r marks with
     | none => none
@@ -45,13 +49,16 @@ def ledgerStep (r : Reg) (L : Ledger) : Op → Ledger
     if r.running then (if r.nitems + 1 > r.mitems then collectL ((p, root) :: L) marks else (p, root) :: L) else L
   | .newRaw _ => L
   | .del p => if r.running then L.filter (fun y => y.1 != p) else L
+  | .delRaw _ => L
   | .sweep marks => collectL L marks
   | .stop => L
   | .start => L
 
-/-- what `malloc` guarantees: a new object's address is 8-aligned and differs from every live managed object's -/
+/-- what `malloc` guarantees: a new object's address is 8-aligned, differs from every live managed object's, and is not
+    NULL (GC_Sweep's finalisation loop and GC_Rem_Ptr's strike-off scan read a NULL word as "no object") -/
 def okOp (L : Ledger) : Op → Prop
-  | .new p _ _ => p ∉ L.map Prod.fst ∧ p % 8 = 0
+  | .new p _ _ => p ∉ L.map Prod.fst ∧ p % 8 = 0 ∧ p ≠ 0
+  | .delRaw p => p ∉ L.map Prod.fst     -- `del_raw` is for objects allocated with `alloc_raw` / `new_raw`
   | _ => True
 
 /-- the states (with their ledgers) reached by some history from the state GC_New leaves -/
@@ -70,7 +77,7 @@ theorem step_wf (c : Cfg) (g : GoodCfg c) (r : Reg) (L : Ledger) (hwf : WF c r L
   | new p root marks =>
     cases hrun : r.running with
     | true =>
-      obtain ⟨r', t, h1, h2, _⟩ := gcSet_wf c g r L hwf p root marks hrun hok.1 hok.2
+      obtain ⟨r', t, h1, h2, _⟩ := gcSet_wf c g r L hwf p root marks hrun hok.1 hok.2.1
       refine ⟨r', by simp only [step, h1, Option.map], ?_⟩
       simp only [ledgerStep, hrun, if_true]
       exact h2
@@ -91,6 +98,7 @@ theorem step_wf (c : Cfg) (g : GoodCfg c) (r : Reg) (L : Ledger) (hwf : WF c r L
       · have hfuel : nestFuel r = (2 * (r.nitems + r.pending.size) + 3) + 1 := by unfold nestFuel; omega
         simp only [step, gcRem, hfuel, exec_rem_succ, hrun, Bool.not_false, if_true, Option.map]
       · simp only [ledgerStep, hrun]; exact hwf
+  | delRaw p => exact ⟨r, by simp only [step, exec_fin_noK, Option.map], hwf⟩
   | sweep marks =>
     obtain ⟨r1, r', t, h1, h2, h3, _⟩ := collect_wf c g r L hwf false marks
     simp only [Bool.false_eq_true, if_false] at h1
